@@ -83,3 +83,34 @@ func neoFSRuntimeTransactionModifier(r, tx) (err)
   ensures [C13] isnil(err) ==> cur(tx).Nonce <= height(old(xcalls("getBlockchainHeight")).len) && height(old(xcalls("getBlockchainHeight")).len) - cur(tx).Nonce < 100
   ensures [C13] !isnil(err) ==> cur(tx) == tx
 @*/
+
+/*@
+module notaryactor
+props C13
+dialect go64
+
+// C13 (helper clause): the Notary-role designation transaction a member builds from the shared parameters carries exactly
+// these parameters (nonce, validity bound, sender as first signer), and sharedTxDataMatches accepts a transaction iff it
+// carries them - so a member that holds a transaction built for replaced parameters can tell, and what a member signs is
+// determined by the shared data alone.
+func sharedTxDataMatches(tx, sharedTxData) (r)
+  pure
+  ensures [C13] r == (sharedTxData.nonce == tx.Nonce && sharedTxData.validUntilBlock == tx.ValidUntilBlock && len(tx.Signers) > 0 && tx.Signers[0].Account == sharedTxData.sender)
+
+func makeUnsignedDesignateCommitteeNotaryTx(roleContract, committee, sharedTxData) (r, err)
+  ensures [C13] isnil(err) ==> r.Nonce == sharedTxData.nonce && r.ValidUntilBlock == sharedTxData.validUntilBlock
+  ensures [C13] isnil(err) ==> len(r.Signers) > 0 && r.Signers[0].Account == sharedTxData.sender
+  ensures [C13] xcalls("rolemgmt.Contract.DesignateAsRoleUnsigned").len == old(xcalls("rolemgmt.Contract.DesignateAsRoleUnsigned")).len + 1
+  ensures [C13] xcalls("rolemgmt.Contract.DesignateAsRoleUnsigned")[old(xcalls("rolemgmt.Contract.DesignateAsRoleUnsigned")).len] == ev_rolemgmt_Contract_DesignateAsRoleUnsigned(32, committee)
+
+// C13 (helper clause): the committee signer of every Notary request built by the deployment procedure is the committee
+// majority multi-signature account: m = n - (n-1)/2 of the n committee keys (what the committee witness of the FS chain
+// verifies), for every committee size - the 2/3 rule of the Alphabet gives another account for n = 3, 5, 6, 7, ...
+func _newCustomCommitteeNotaryActor(b, localAcc, committee, payerAcc, fCommitteeSigner, extraSigners) (r, err)
+  ensures [C13] isnil(err) ==> xcalls("wallet.Account.ConvertMultisig").len == old(xcalls("wallet.Account.ConvertMultisig")).len + 1
+  ensures [C13] isnil(err) ==> xcalls("wallet.Account.ConvertMultisig")[old(xcalls("wallet.Account.ConvertMultisig")).len]
+        == ev_wallet_Account_ConvertMultisig(len(committee) - (len(committee) - 1) / 2, committee)
+  // one actor is built per call, and only after the committee account was composed
+  ensures [C13] isnil(err) ==> xcalls("notary.NewActor").len == old(xcalls("notary.NewActor")).len + 1
+  ensures [C13] xcalls("notary.NewActor").len <= old(xcalls("notary.NewActor")).len + 1
+@*/
